@@ -14,11 +14,13 @@ import (
 	"fmt"
 	"sort"
 	"strings"
-	"sync"
 	"time"
 
 	"github.com/anishathalye/porcupine"
+	"github.com/google/badwolf/bql/grammar"
+	"github.com/google/badwolf/bql/planner"
 	"github.com/google/badwolf/bql/planner/filter"
+	"github.com/google/badwolf/bql/semantic"
 	"github.com/google/badwolf/storage"
 	"github.com/google/badwolf/storage/memory"
 	"github.com/google/badwolf/triple"
@@ -237,16 +239,17 @@ type hctx struct {
 	ops    []porcupine.Operation
 	looks  []*lookupRec
 	wg     vsync.WaitGroup
-	mu     sync.Mutex // only for the free-running companion
 	nested int        // informational S7 variant: consumer issues a read between receives
+	bql    map[string]bqlResult
 
 	pendingNames []pendingNames
 }
 
 func (h *hctx) tick() int64 {
 	if h.native {
-		h.mu.Lock()
-		defer h.mu.Unlock()
+		// free-running companion: no history (a shared clock would order the calls
+		// for the race detector and hide races between them)
+		return 0
 	}
 	h.clock++
 	return h.clock
@@ -254,8 +257,7 @@ func (h *hctx) tick() int64 {
 
 func (h *hctx) record(client int, in gin, call, ret int64, out gout) {
 	if h.native {
-		h.mu.Lock()
-		defer h.mu.Unlock()
+		return
 	}
 	h.ops = append(h.ops, porcupine.Operation{ClientId: client, Input: in, Call: call, Output: out, Return: ret})
 }
@@ -316,7 +318,9 @@ func (h *hctx) spawnLookup(name string, g storage.Graph, lk, opt string, lo *sto
 				defer h.wg.Done()
 				for o := range vrt.Range(ch) {
 					rec.got = append(rec.got, model.ObjKey(o))
-					rec.loSeen = append(rec.loSeen, snap(lo))
+					if !h.native {
+						rec.loSeen = append(rec.loSeen, snap(lo))
+					}
 					if nested != nil {
 						nested()
 					}
@@ -340,7 +344,9 @@ func (h *hctx) spawnLookup(name string, g storage.Graph, lk, opt string, lo *sto
 				defer h.wg.Done()
 				for t := range vrt.Range(ch) {
 					rec.got = append(rec.got, model.TripleKey(t))
-					rec.loSeen = append(rec.loSeen, snap(lo))
+					if !h.native {
+						rec.loSeen = append(rec.loSeen, snap(lo))
+					}
 					if nested != nil {
 						nested()
 					}
@@ -418,6 +424,12 @@ type scenario struct {
 	Store   bool    // store-level history (S4)
 	Info    bool    // informational only (S7 nested-read variant)
 	Body    func(h *hctx, capacity int)
+	// Custom replaces the history oracle (S6: statement level)
+	Custom func(h *hctx, add func(shape, detail string)) string
+	Cfg    vrt.Config
+	OneCap bool // the result-channel capacity is not a parameter of this scenario
+	BoundQ int  // bounded mode: largest bound attempted on the quick / thorough tier
+	BoundT int
 }
 
 var scenarios = []scenario{
@@ -435,7 +447,7 @@ var scenarios = []scenario{
 			h.spawnLookup("lookup", g, lkObjects, "", storage.DefaultLookup, c, false, nil)
 			h.spawnUpdate(2, g, "add", 0b0001)
 		}},
-	{Name: "S3", Class: "S3:two-lookups-sharing-one-LookupOptions-with-LatestAnchor", Mode: explore.Bounded, Initial: 0b1011,
+	{Name: "S3", Class: "S3:two-lookups-sharing-one-LookupOptions-with-LatestAnchor", Mode: explore.Bounded, Initial: 0b1011, BoundQ: 3, BoundT: 4,
 		Body: func(h *hctx, c int) {
 			_, g := freshGraph(0b1011)
 			shared := optionsFor("latest")
@@ -483,10 +495,12 @@ var scenarios = []scenario{
 				cl := h.tick()
 				err := st.GraphNames(ctx, names)
 				r := h.tick()
-				h.pendingNames = append(h.pendingNames, pendingNames{cl, r, err, &got})
+				if !h.native {
+					h.pendingNames = append(h.pendingNames, pendingNames{cl, r, err, &got})
+				}
 			})
 		}},
-	{Name: "S5", Class: "S5:error-paths|Add", Mode: explore.SleepSets, Hedge: true, Initial: 0b0100,
+	{Name: "S5a", Class: "S5a:nil-channel|LatestAnchor+FilterOptions|Add|Exist", Mode: explore.SleepSets, Hedge: true, Initial: 0b0100,
 		Body: func(h *hctx, c int) {
 			_, g := freshGraph(0b0100)
 			h.spawnUpdate(0, g, "add", 0b0011)
@@ -496,9 +510,16 @@ var scenarios = []scenario{
 			both.LatestAnchor = true
 			r2 := h.spawnLookup("latest+filter", g, lkTriples, "", both, c, false, nil)
 			r2.wantErr = true
+			h.spawnExist(3, g, 1)
+		}},
+	{Name: "S5b", Class: "S5b:invalid-filter-field|Add|Exist", Mode: explore.SleepSets, Hedge: true, Initial: 0b0100,
+		Body: func(h *hctx, c int) {
+			_, g := freshGraph(0b0100)
+			h.spawnUpdate(0, g, "add", 0b0011)
 			bad := &storage.LookupOptions{FilterOptions: &filter.StorageOptions{Operation: filter.IsImmutable, Field: filter.SubjectField}}
 			r3 := h.spawnLookup("badfield", g, lkObjects, "", bad, c, false, nil)
 			r3.wantErr = true
+			h.spawnExist(3, g, 1)
 		}},
 	{Name: "S7", Class: "S7:reader-on-slow-consumer|writer|second-reader", Mode: explore.SleepSets, Hedge: true, Initial: 0b0011, Batches: []uint8{0b1100},
 		Body: func(h *hctx, c int) {
@@ -517,6 +538,104 @@ var scenarios = []scenario{
 			h.spawnUpdate(1, g, "add", 0b0100)
 		}},
 }
+
+type bqlResult struct {
+	rows []string
+	err  error
+}
+
+// runBQL is tools/vcli/bw/run.BQL (parse, plan, execute) without the CLI around it.
+func runBQL(st storage.Store, text string, chanSize, bulkSize int) bqlResult {
+	p, err := grammar.NewParser(grammar.SemanticBQL())
+	if err != nil {
+		return bqlResult{err: err}
+	}
+	stm := &semantic.Statement{}
+	if err := p.Parse(grammar.NewLLk(text, 1), stm); err != nil {
+		return bqlResult{err: fmt.Errorf("parse: %v", err)}
+	}
+	pln, err := planner.New(ctx, st, stm, chanSize, bulkSize, nil)
+	if err != nil {
+		return bqlResult{err: fmt.Errorf("plan: %v", err)}
+	}
+	tbl, err := pln.Execute(ctx)
+	if err != nil {
+		return bqlResult{err: fmt.Errorf("execute: %v", err)}
+	}
+	var rows []string
+	bs := tbl.Bindings()
+	sort.Strings(bs)
+	for _, r := range tbl.Rows() {
+		var cs []string
+		for _, b := range bs {
+			c := "<nil>"
+			if r[b] != nil {
+				c = r[b].String()
+			}
+			cs = append(cs, b+"="+c)
+		}
+		rows = append(rows, strings.Join(cs, " "))
+	}
+	sort.Strings(rows)
+	return bqlResult{rows: rows}
+}
+
+const (
+	s6Insert = `insert data into ?g {/u<s> "p"@[] /u<o1> . /u<o1> "q"@[] /u<x1>};`
+	s6Select = `select ?o, ?x from ?g where {/u<s> "p"@[] ?o . ?o "q"@[] ?x};`
+	s6Row0   = "?o=/u<o0> ?x=/u<x0>"
+	s6Row1   = "?o=/u<o1> ?x=/u<x1>"
+)
+
+var s6Scenario = scenario{Name: "S6", Class: "S6:BQL-INSERT|BQL-2-clause-SELECT", Mode: explore.Bounded, OneCap: true, Cfg: vrt.Config{Procs: 2}, BoundQ: 1, BoundT: 2,
+	Body: func(h *hctx, c int) {
+		st := memory.NewStore()
+		g, err := st.NewGraph(ctx, "?g")
+		if err != nil {
+			panic(err)
+		}
+		o0 := model.N("/u", "o0")
+		if err := g.AddTriples(ctx, []*triple.Triple{model.T(uS, model.PI("p"), model.ON(o0)), model.T(o0, model.PI("q"), model.ON(model.N("/u", "x0")))}); err != nil {
+			panic(err)
+		}
+		h.bql = map[string]bqlResult{}
+		h.wg.Add(2)
+		vrt.GoNamed("insert", func() {
+			defer h.wg.Done()
+			r := runBQL(st, s6Insert, 0, 1)
+			h.bql["insert"] = r
+		})
+		vrt.GoNamed("select", func() {
+			defer h.wg.Done()
+			r := runBQL(st, s6Select, c, 1)
+			h.bql["select"] = r
+		})
+		h.wg.Wait()
+		vrt.MarkReturned()
+		// what the store holds afterwards, sequentially
+		h.bql["final"] = runBQL(st, s6Select, 0, 1)
+	},
+	Custom: func(h *hctx, add func(shape, detail string)) string {
+		ins, sel, fin := h.bql["insert"], h.bql["select"], h.bql["final"]
+		if ins.err != nil {
+			add("insert-returned-error", ins.err.Error())
+		}
+		if sel.err != nil {
+			add("select-returned-error", sel.err.Error())
+		}
+		got := strings.Join(sel.rows, " | ")
+		// the INSERT adds its two triples in one batch: every lookup of the SELECT sees
+		// both or neither, later lookups see at least what earlier ones saw
+		if sel.err == nil && got != s6Row0 && got != s6Row0+" | "+s6Row1 {
+			add("select-result-not-explained-by-any-order", fmt.Sprintf("SELECT returned [%s]; with the INSERT before, between or after its lookups only [%s] or [%s | %s] are possible", got, s6Row0, s6Row0, s6Row1))
+		}
+		if f := strings.Join(fin.rows, " | "); fin.err != nil || f != s6Row0+" | "+s6Row1 {
+			add("final-content-wrong", fmt.Sprintf("after both statements returned a sequential SELECT gives [%s] err=%v", f, fin.err))
+		}
+		return fmt.Sprintf("select=[%s] insertErr=%v", got, ins.err != nil)
+	}}
+
+func init() { scenarios = append(scenarios, s6Scenario) }
 
 type pendingNames struct {
 	call, ret int64
@@ -547,6 +666,10 @@ func (sc *scenario) check(h *hctx, out *vrt.Outcome) ([]explore.Verdict, string)
 		v.Info = sc.Info
 		vs = append(vs, *v)
 		return vs, string(out.Status) + ":" + v.Shape
+	}
+	if sc.Custom != nil {
+		oc := sc.Custom(h, add)
+		return vs, oc
 	}
 	var oc []string
 	ops := append([]porcupine.Operation(nil), h.ops...)
